@@ -23,7 +23,7 @@ DUP_BLOCK, INVALID_BLOCK, NOSUCH_BLOCK, DUP_FRAME, INVALID_FRAME, NOSUCH_FRAME =
 CAT_NOT_UNIQUE, INVALID_CATEGORY, NOSUCH_LOOP, RESERVED_LOOP, WRONG_LOOP, EMPTY_LOOP, NULL_LOOP = 31, 32, 33, 34, 35, 36, 37
 DUP_ITEM, INVALID_ITEM, NOSUCH_ITEM, AMBIGUOUS_ITEM, INVALID_PACKET = 41, 42, 43, 44, 52
 
-F30_CLASS = "add_packet-omitted-items-not-stored"
+F30_CLASS = None      # F30 (packets that omit items) is repaired in /repo (e266ec6): a recurrence is a violation
 F32_CLASS = "set_category-null-takes-scalar-category"   # F34, fixed by 95b7b25: no open entry any more
 
 
